@@ -86,7 +86,26 @@ def gen_cases(rng, tier):
         for nanos in (0, 999999999, 1000000000, 3999999999, 4294967295):
             hx = (secs & ((1 << 64) - 1)).to_bytes(8, "little").hex() + nanos.to_bytes(4, "little").hex()
             out.append("c15 ts%d T=time B=%s mut=time" % (k, hx)); k += 1
+    # event log files: every row's leading and trailing length marker set to boundary values (the row iterator
+    # computes positions from them in both directions), for the first files generated
+    ROWLEN = [0, 1, 7, 8, 0x7fffffff, 0x80000000, 0xfffffff7, 0xfffffff8, 0xfffffffb, 0xfffffffc, 0xffffffff]
+    for b in by_type.get("evfile", [])[:10 if tier == "quick" else 60]:
+        raw = bytes.fromhex(b)
+        pos, marks = 4, []
+        while pos + 8 <= len(raw):
+            n = int.from_bytes(raw[pos:pos + 4], "little")
+            if pos + n + 8 > len(raw): break
+            marks += [pos, pos + 4 + n]
+            pos += n + 8
+        for mk in marks:
+            n = int.from_bytes(raw[mk:mk + 4], "little")
+            for v in ROWLEN + [n - 1, n + 1, n + 8, len(raw), len(raw) - mk]:
+                m = (raw[:mk] + (v & 0xffffffff).to_bytes(4, "little") + raw[mk + 4:]).hex()
+                if ("evfile", m) in seen or m == b: continue
+                seen.add(("evfile", m))
+                out.append("c15 r%d T=evfile B=%s mut=rowlen" % (k, m)); k += 1
     for t, b, _ in vals:
+        if t == "tagset": continue       # a list of tags in the harness' own framing, not an encoding the SDK reads
         for _ in range(per):
             kind, m = mutate(rng, t, b, by_type.get(t, []))
             if (t, m) in seen or (t, m) in valid:
@@ -114,6 +133,8 @@ def oracle(case, obs):
         fails.append({"oracle": "no_panic", "type": ty, "detail": "decoder panicked: %s" % msg[:160]})
     elif r == "abort":
         fails.append({"oracle": "no_abort", "type": ty, "detail": "process aborted while decoding (allocation failure / overflow)"})
+    if any("hang" in o for o in obs if not o.startswith("!alloc")):
+        fails.append({"oracle": "no_hang", "type": ty, "detail": "an iteration over the input did not end within 200000 rows: %s" % " ".join(obs)[:200]})
     for o in obs:
         if o.startswith("!alloc"):
             d = dict(x.split("=") for x in o.split()[1:])
